@@ -24,8 +24,55 @@ void lsd_fatal_error(char *f, int l, char *m) { (void)f; (void)l; (void)m; }
 #ifdef WITH_LSD_NOMEM_ERROR_FUNC
 void *lsd_nomem_error(char *f, int l, char *m) { (void)f; (void)l; (void)m; return 0; }
 #endif
+/* every function the public header declares: identifiers `cbuf_...` followed by `(` outside
+ * comments.  Props/C13.lean proves that each of them is covered by the model (`header_covered`),
+ * so a function added to cbuf.h breaks the build of the theorems instead of going unnoticed.
+ * The header is read from the tree under test (VERIF_REPO, default /repo). */
+#include <stdlib.h>
+#include <ctype.h>
+static void emit_api(void)
+{
+    const char *repo = getenv("VERIF_REPO");
+    char path[4096], *txt;
+    long n, i, k = 0;
+    FILE *f;
+    snprintf(path, sizeof path, "%s/src/pdsh/cbuf.h", repo && *repo ? repo : "/repo");
+    f = fopen(path, "r");
+    if (!f) { fprintf(stderr, "cannot read %s\n", path); exit(1); }
+    fseek(f, 0, SEEK_END); n = ftell(f); rewind(f);
+    txt = malloc(n + 2);
+    n = (long) fread(txt, 1, n, f); txt[n] = txt[n + 1] = 0;
+    fclose(f);
+    /* blank out comments */
+    for (i = 0; i < n; i++) {
+        if (txt[i] == '/' && txt[i + 1] == '*') {
+            while (i < n && !(txt[i] == '*' && txt[i + 1] == '/')) txt[i++] = ' ';
+            if (i < n) { txt[i] = ' '; txt[i + 1] = ' '; }
+        } else if (txt[i] == '/' && txt[i + 1] == '/') {
+            while (i < n && txt[i] != '\n') txt[i++] = ' ';
+        }
+    }
+    printf("def CBUF_API : List String := [");
+    for (i = 0; i < n; i++) {
+        if (strncmp(txt + i, "cbuf_", 5) == 0 && (i == 0 || !(isalnum((unsigned char) txt[i - 1]) || txt[i - 1] == '_'))) {
+            long j = i;
+            while (isalnum((unsigned char) txt[j]) || txt[j] == '_') j++;
+            long e = j;
+            while (txt[j] == ' ' || txt[j] == '\t' || txt[j] == '\n') j++;
+            if (txt[j] == '(') {
+                printf("%s\"%.*s\"", k++ ? ", " : "", (int) (e - i), txt + i);
+            }
+            i = e;
+        }
+    }
+    printf("]\n");
+    if (k == 0) { fprintf(stderr, "no prototype found in %s\n", path); exit(1); }
+    free(txt);
+}
+
 int main(void)
 {
+    emit_api();
     LEAN_NAT("CBUF_CHUNK", CBUF_CHUNK);
     LEAN_NAT("CBUF_NO_DROP", CBUF_NO_DROP);
     LEAN_NAT("CBUF_WRAP_ONCE", CBUF_WRAP_ONCE);
